@@ -161,6 +161,9 @@ class ExprRewriter(ast.NodeTransformer, EmitterMixin):
         elif isinstance(subscript, (ast.ExtSlice, ast.Tuple)):
             if isinstance(subscript, ast.Tuple):
                 elts = subscript.elts
+                if not any(isinstance(elt, ast.Slice) for elt in elts):
+                    # `d[1, 2]` / `d[(1, 2)]`: an ordinary tuple display used as the index
+                    return self.visit(subscript)
             else:
                 elts = subscript.dims  # type: ignore
             elts = [self._maybe_convert_ast_subscript(elt) for elt in elts]
